@@ -48,8 +48,8 @@ class QHooks(Hooks):
             return True
         if self.inline_unit and fn.unit == self.inline_unit:
             return True
-        if self.inline_same_unit and self.entry_unit and fn.unit == self.entry_unit and not fn.sys and not fn.noreturn:
-            return True     # noreturn helpers stay events (on_exit), everything else next to the entry is part of it
+        if self.inline_same_unit and self.entry_unit and fn.unit == self.entry_unit and not fn.sys:
+            return True     # helpers next to the entry function are part of it (a rule keeps one as an event with prim_<name>)
         return False
 
     def tracked_global(self, path):
@@ -339,3 +339,57 @@ def lit_of(E, argx):
         if isinstance(a, tuple) and a[0] == 'str':
             return a[1]
     return None
+
+
+def values_reaching(fn, var, start_block, target_block, universe, stop_blocks=()):
+    """which values of the variable `var` (decl id) let control flow from the START of start_block to
+    target_block, interpreting only branches that compare var with constants (if / && / || / switch)"""
+    got = set()
+    seen = set()
+    work = [(start_block, frozenset(universe))]
+    while work:
+        bid, vals = work.pop()
+        if not vals or (bid, vals) in seen:
+            continue
+        seen.add((bid, vals))
+        if bid == target_block:
+            got |= vals
+            continue
+        if bid in stop_blocks and bid != start_block:
+            continue
+        b = fn.blocks[bid]
+        if b.term is None or 'cond' not in b.term or len(b.succs) < 2:
+            for s in b.succs:
+                if s is not None:
+                    work.append((s, vals))
+            continue
+        cond = b.cond
+        if b.term['k'] == 'switch':
+            if cond.strip().var == var or (cond.var == var):
+                covered = set()
+                default = None
+                for s in b.succs:
+                    lab = fn.blocks[s].label if s is not None else None
+                    if lab and lab.get('k') == 'case' and lab.get('lo') is not None:
+                        sub = frozenset(v for v in vals if lab['lo'] <= v <= lab['hi'])
+                        covered |= sub
+                        work.append((s, sub))
+                    else:
+                        default = s
+                if default is not None:
+                    work.append((default, frozenset(vals - covered)))
+            else:
+                for s in b.succs:
+                    if s is not None:
+                        work.append((s, vals))
+            continue
+        p = _cmp_parts(cond)
+        if p is not None and p[0].var == var:
+            f = p[1]
+            work.append((b.succs[0], frozenset(v for v in vals if f(v)))) if b.succs[0] is not None else None
+            work.append((b.succs[1], frozenset(v for v in vals if not f(v)))) if b.succs[1] is not None else None
+        else:
+            for s in b.succs:
+                if s is not None:
+                    work.append((s, vals))
+    return got
